@@ -8,7 +8,7 @@ import tie
 
 RULE = ("Python decodes each literal (escapes \\\\ \\\" \\$ \\n \\r \\xHH) and concatenates pieces and slot values — the oracle — and "
         "predicts stdout of a script exercising print, ->len() (UTF-8 bytes), +, ==, indexing, range-indexing and `for` over "
-        "bytes; streams: every string of <= 2 (quick) / <= 3 (thorough) items over {a, é, €, 😀, \\\\, \\\", \\$, \\n, \\x41, {, }, space} "
+        "bytes; streams: every string of <= 2 (quick) / <= 4 (thorough) items over {a, é, €, 😀, \\\\, \\\", \\$, \\n, \\x41, {, }, space} "
         "(exhaustive); every arrangement of 0..3 slots among pieces of that alphabet (k <= 2 exhaustive over single-item "
         "pieces, k = 3 sampled in quick / exhaustive in thorough), slot expressions with nested braces / brackets / calls / "
         "string literals / nested interpolation; non-string slot values; slots inside functions (scope); malformed literals: "
